@@ -308,6 +308,7 @@ type script struct {
 	ln            net.Listener
 	port          int
 	noServerPorts bool
+	source        string // "source=" of the SETUP responses ("" = none)
 	ann           [2][2]*net.UDPConn // announced (bound, silent) server sockets per media
 	annPort       [2]int
 
@@ -425,6 +426,10 @@ func (s *script) serve(nc net.Conn) {
 				s.mu.Unlock()
 			} else {
 				th.ClientPorts = t.ClientPorts
+				if s.source != "" {
+					src := s.source
+					th.Source2 = &src
+				}
 				if !s.noServerPorts && m < 2 {
 					th.ServerPorts = &[2]int{s.annPort[m], s.annPort[m] + 1}
 				}
@@ -470,6 +475,9 @@ type anyPortCase struct {
 	Name          string `json:"name"`
 	NoServerPorts bool   `json:"no_server_ports"` // SETUP answered without server_port (else: announced ports, media sent from other ones)
 	Seed          int64  `json:"seed"`
+	// Source != "": not an AnyPort case - the scripted server names this address as the media
+	// source in its Transport header (a multi-homed server); see runNegotiatedSource
+	Source string `json:"source,omitempty"`
 }
 
 // runAnyPort asserts the documented behaviour of Client.AnyPortEnable ("enable communication
@@ -478,6 +486,10 @@ type anyPortCase struct {
 // the first packet from the server's address is accepted whatever its port, later packets from
 // other ports and any packet from another address are ignored.
 func runAnyPort(ac anyPortCase) {
+	if ac.Source != "" {
+		runNegotiatedSource(ac)
+		return
+	}
 	evals.Add(1)
 	r := rand.New(rand.NewSource(ac.Seed))
 	wit := map[string]any{"part": "client-anyport", "anyport": ac}
@@ -580,6 +592,110 @@ func runAnyPort(ac anyPortCase) {
 		run.Distinct(fmt.Sprintf("client-udp|anyport-script|noports=%v|m%d", ac.NoServerPorts, m))
 	}
 	run.Count("anyport-script-cases", 1)
+}
+
+// runNegotiatedSource: the server's Transport header names a media source that is not the address
+// of the control connection. The peer the client negotiated with is then that source, for RTP and
+// for RTCP: datagrams from the control connection's address (same port numbers) come from somebody
+// else and must change nothing, and the negotiated source must be served.
+func runNegotiatedSource(ac anyPortCase) {
+	evals.Add(1)
+	r := rand.New(rand.NewSource(ac.Seed))
+	wit := map[string]any{"part": "client-anyport", "anyport": ac}
+	fail := func(key, what string) { run.Violation(key, "["+ac.Name+"] "+what, wit) }
+	s, err := newScript(false)
+	if err != nil {
+		run.Inconclusive("script-start")
+		return
+	}
+	defer s.close()
+	s.source = ac.Source
+	// the announced port numbers are used by the senders below, on both addresses
+	for m := range s.ann {
+		for j, c := range s.ann[m] {
+			if c != nil {
+				c.Close()
+				s.ann[m][j] = nil
+			}
+		}
+	}
+	cl, err := startClient(s.addr(), "/stream", cliOpts{Proto: "udp", ReadTimeout: longTimeout, InitialUDP: longTimeout})
+	if err != nil {
+		fail("client-udp/negotiated-source/setup-refused", "a client could not set up against a server that names another address as the media source: "+err.Error())
+		return
+	}
+	defer cl.c.Close()
+	runID := newRunID()
+	cl.sink.run.Store(runID)
+	cl.sink.mu.Lock()
+	cl.sink.wit = wit
+	cl.sink.mu.Unlock()
+	for m := 0; m < 2; m++ {
+		cp, ok := s.clientPorts(m)
+		if !ok {
+			run.Inconclusive("script-no-client-ports")
+			return
+		}
+		legit := openSpoofer(clLegit, ac.Source, s.annPort[m], s.annPort[m]+1)
+		ctrl := openSpoofer(clOtherIP, "127.0.0.1", s.annPort[m], s.annPort[m]+1)
+		if legit == nil || ctrl == nil {
+			run.Inconclusive("negotiated-source-sockets")
+			return
+		}
+		dst := &net.UDPAddr{IP: net.ParseIP("127.0.0.1"), Port: cp[0]}
+		dstC := &net.UDPAddr{IP: net.ParseIP("127.0.0.1"), Port: cp[1]}
+		seq := uint16(2000)
+		send := func(sp *spoofer, n int) {
+			for k := 0; k < n; k++ {
+				sq := seq + uint16(1+k)
+				if sp.Class == clLegit {
+					seq++
+					sq = seq
+				}
+				_, _ = sp.rtp.WriteToUDP(buildRTP(runID, m, sp.Class, 0xABCD0000+uint32(m), sq, uint32(sq)*3000, uint64(sq), r), dst)
+				_, _ = sp.rtcp.WriteToUDP(senderReport(0xABCD0000+uint32(m), sp.Class, uint32(sq)), dstC)
+				run.Count("spoofed-datagrams:client:negotiated-source:"+classNames[sp.Class], 2)
+			}
+		}
+		fence := func() (bool, bool) {
+			r0 := cl.sink.mediaCount(m)
+			_, c0 := cl.sink.counts()
+			for a := 0; a < 3; a++ {
+				send(legit, 1)
+				ok, _ := waitCond(time.Second, func() bool {
+					_, c1 := cl.sink.counts()
+					return cl.sink.mediaCount(m) > r0 && c1 > c0
+				})
+				if ok {
+					return true, true
+				}
+			}
+			_, c1 := cl.sink.counts()
+			return cl.sink.mediaCount(m) > r0, c1 > c0
+		}
+		// 1. the negotiated source is served, RTP and RTCP
+		if a, b := fence(); !a || !b {
+			fail("client-udp/negotiated-source/legit-not-accepted", fmt.Sprintf("media %d: datagrams from the source named in the Transport header (%s) were not delivered (rtp %v, rtcp %v)", m, ac.Source, a, b))
+			return
+		}
+		// 2. the control connection's address is not the negotiated peer: nothing may change
+		before := statsView(cl.c.Stats().Session)
+		send(ctrl, 30)
+		waitDrained(cp[0], cp[1])
+		after := statsView(cl.c.Stats().Session)
+		run.Count("stats-snapshots-compared:client", 1)
+		if in, _ := diffStats(before, after); len(in) > 0 {
+			fail("client-udp/negotiated-source/control-address-accepted", fmt.Sprintf("media %d: Client.Stats() changed while only the control connection's address (not the negotiated source %s) sent RTP / RTCP from the announced ports: %v", m, ac.Source, in))
+		}
+		// 3. and the negotiated source still works
+		if a, b := fence(); !a || !b {
+			fail("client-udp/negotiated-source/legit-lost", fmt.Sprintf("media %d: the negotiated source stopped being accepted after the control address had sent (rtp %v, rtcp %v)", m, a, b))
+		}
+		legit.close()
+		ctrl.close()
+		run.Distinct(fmt.Sprintf("client-udp|negotiated-source|m%d", m))
+	}
+	run.Count("negotiated-source-cases", 1)
 }
 
 // ---- client timeouts ----------------------------------------------------------------------------------
@@ -747,6 +863,12 @@ func clientUDPPart() {
 				runAnyPort(ac)
 			}()
 		}
+		sc := anyPortCase{Name: "scripted/source=127.0.1.1", Source: "127.0.1.1", Seed: rs.Int63()}
+		wg.Add(1)
+		go func() {
+			defer wg.Done()
+			runAnyPort(sc)
+		}()
 	}
 	wg.Wait()
 }
